@@ -15,7 +15,7 @@ import (
 type Verdict struct {
 	Obl     *Obl
 	Func    string
-	Status  string // discharged | refuted | undecided | cover-ok | cover-fail
+	Status  string // discharged | refuted | undecided | cover-ok | cover-fail | cover-unknown
 	Backend string
 	TimeS   float64
 	Output  string // solver output for refuted / undecided
@@ -23,23 +23,63 @@ type Verdict struct {
 	Script  string // path of the script (kept for refuted/undecided)
 }
 
-type solverSpec struct {
-	name string
-	args func(file string, timeoutMs int) []string
+var dumpAll bool
+
+// A variant is one way of attacking a goal: a solver, its options and an optional (sound)
+// transformation of the script. All variants of a goal are raced; the first conclusive answer
+// wins. Transformations only ever drop assumptions or pick a decision procedure.
+type variant struct {
+	name      string
+	cmd       func(file string, ms int) []string
+	prep      func(script string) (string, bool) // returns false when the variant does not apply
+	qfOnly    bool
+	proveOnly bool // a "sat" answer of this variant is not used
+	maxMs     int
 }
 
-var solvers = []solverSpec{
-	{"z3-5.1.0", func(f string, ms int) []string { return []string{"z3-new", fmt.Sprintf("-t:%d", ms), f} }},
-	{"cvc5-1.0", func(f string, ms int) []string {
+const bbTactic = "(check-sat-using (then simplify propagate-values solve-eqs dt2bv elim-uncnstr ackermannize_bv simplify bit-blast sat))"
+
+func z3cmd(opts ...string) func(string, int) []string {
+	return func(f string, ms int) []string {
+		return append(append([]string{"z3-new", fmt.Sprintf("-t:%d", ms)}, opts...), f)
+	}
+}
+
+var variants = []variant{
+	{name: "z3-5.1.0", cmd: z3cmd()},
+	{name: "z3-5.1.0/ematch", cmd: z3cmd("smt.mbqi=false", "smt.auto_config=false"), proveOnly: true},
+	{name: "cvc5-1.0", cmd: func(f string, ms int) []string {
 		return []string{"cvc5", fmt.Sprintf("--tlimit=%d", ms), "--full-saturate-quant", f}
 	}},
-	{"z3-4.8.12", func(f string, ms int) []string { return []string{"z3", fmt.Sprintf("-t:%d", ms), f} }},
+	{name: "z3-5.1.0/ground", cmd: z3cmd(), prep: dropQuantified, proveOnly: true},
+	{name: "z3-5.1.0/bitblast", cmd: z3cmd(), prep: func(s string) (string, bool) {
+		return strings.Replace(s, "(check-sat)", bbTactic, 1), true
+	}, qfOnly: true, proveOnly: true, maxMs: 4000},
 }
 
-func runSolver(sp solverSpec, file string, timeoutMs int) (string, string, float64) {
-	ctx, cancel := context.WithTimeout(context.Background(), time.Duration(timeoutMs+2000)*time.Millisecond)
-	defer cancel()
-	a := sp.args(file, timeoutMs)
+// dropQuantified removes the quantified assumptions (all but the last assert, which is the
+// negated goal). Fewer assumptions: an "unsat" is still a proof.
+func dropQuantified(s string) (string, bool) {
+	lines := strings.Split(s, "\n")
+	last := -1
+	for i, l := range lines {
+		if strings.HasPrefix(l, "(assert ") {
+			last = i
+		}
+	}
+	dropped := false
+	var out []string
+	for i, l := range lines {
+		if i != last && strings.HasPrefix(l, "(assert ") && (strings.Contains(l, "(forall ") || strings.Contains(l, "(exists ")) {
+			dropped = true
+			continue
+		}
+		out = append(out, l)
+	}
+	return strings.Join(out, "\n"), dropped
+}
+
+func runSolverCtx(ctx context.Context, a []string) (string, string, float64) {
 	cmd := exec.CommandContext(ctx, a[0], a[1:]...)
 	var out bytes.Buffer
 	cmd.Stdout = &out
@@ -59,6 +99,65 @@ func runSolver(sp solverSpec, file string, timeoutMs int) (string, string, float
 	return "error", s, dt
 }
 
+type raceResult struct {
+	v      *variant
+	r, out string
+	dt     float64
+}
+
+// race runs the applicable variants concurrently and returns the first conclusive result.
+func race(script, file string, timeoutMs int, cover bool) (string, string, float64, []string) {
+	qf := !strings.Contains(script, "(forall ") && !strings.Contains(script, "(exists ")
+	ctx, cancel := context.WithTimeout(context.Background(), time.Duration(timeoutMs+1500)*time.Millisecond)
+	defer cancel()
+	ch := make(chan raceResult, len(variants))
+	n := 0
+	for i := range variants {
+		v := &variants[i]
+		if v.qfOnly && !qf {
+			continue
+		}
+		if cover && i > 0 {
+			continue // covers only look for a contradiction, with the primary solver
+		}
+		f := file
+		if v.prep != nil {
+			s2, ok := v.prep(script)
+			if !ok {
+				continue
+			}
+			f = fmt.Sprintf("%s.v%d.smt2", file, i)
+			os.WriteFile(f, []byte(s2), 0o644)
+		}
+		ms := timeoutMs
+		if v.maxMs > 0 && ms > v.maxMs {
+			ms = v.maxMs
+		}
+		n++
+		go func(v *variant, f string, ms int) {
+			r, out, dt := runSolverCtx(ctx, v.cmd(f, ms))
+			ch <- raceResult{v, r, out, dt}
+		}(v, f, ms)
+	}
+	var outs []string
+	total := 0.0
+	res, backend := "unknown", ""
+	for k := 0; k < n; k++ {
+		rr := <-ch
+		outs = append(outs, fmt.Sprintf("--- %s: %s (%.2fs)\n%s", rr.v.name, rr.r, rr.dt, truncate(rr.out, 1500)))
+		if rr.dt > total {
+			total = rr.dt
+		}
+		if rr.r == "unsat" || (rr.r == "sat" && !rr.v.proveOnly) {
+			res, backend = rr.r, rr.v.name
+			total = rr.dt
+			cancel()
+			break
+		}
+	}
+	return res, backend, total, outs
+}
+
 // discharge runs all obligations of all functions with a worker pool.
 func discharge(results []*FuncResult, workers int, timeoutMs int, seed int, keepDir string) []*Verdict {
 	tmp, err := os.MkdirTemp("", "arkvc")
@@ -67,86 +166,65 @@ func discharge(results []*FuncResult, workers int, timeoutMs int, seed int, keep
 	}
 	defer os.RemoveAll(tmp)
 	type job struct {
-		fr *FuncResult
-		o  *Obl
-		id int
+		fr     *FuncResult
+		o      *Obl
+		id     int
+		script string
 	}
 	var jobs []job
 	for _, fr := range results {
 		for _, o := range fr.Obls {
-			jobs = append(jobs, job{fr, o, len(jobs)})
+			jobs = append(jobs, job{fr, o, len(jobs), fr.VC.script(o, seed)})
 		}
 	}
 	verdicts := make([]*Verdict, len(jobs))
 	var wg sync.WaitGroup
 	ch := make(chan job)
-	// de-duplicate identical scripts within this invocation
 	var mu sync.Mutex
+	if workers > 6 {
+		workers = workers * 3 / 8 // each job races several solver processes
+	}
 	for w := 0; w < workers; w++ {
 		wg.Add(1)
 		go func() {
 			defer wg.Done()
 			for j := range ch {
-				script := j.fr.VC.script(j.o, seed)
+				script := j.script
 				file := filepath.Join(tmp, fmt.Sprintf("o%d.smt2", j.id))
 				os.WriteFile(file, []byte(script), 0o644)
 				v := &Verdict{Obl: j.o, Func: j.fr.Name}
-				want := "unsat"
+				tmo := timeoutMs
 				if j.o.Cover {
-					want = "sat"
+					tmo = 1500
 				}
+				r, backend, dt, outs := race(script, file, tmo, j.o.Cover)
+				v.TimeS, v.Backend = dt, backend
 				status := "undecided"
-				var outs []string
-				for si, sp := range solvers {
-					tmo := timeoutMs
-					if si > 0 {
-						tmo = timeoutMs / 2
-					}
-					if j.o.Cover {
-						// a cover goal only looks for a contradiction in the assumptions
-						if si > 0 {
-							break
-						}
-						tmo = 1500
-					}
-					r, out, dt := runSolver(sp, file, tmo)
-					v.TimeS += dt
-					outs = append(outs, fmt.Sprintf("--- %s: %s (%.2fs)\n%s", sp.name, r, dt, truncate(out, 2000)))
-					if r == want {
-						v.Backend = sp.name
-						if j.o.Cover {
-							status = "cover-ok"
-						} else {
-							status = "discharged"
-						}
-						break
-					}
-					if r == "sat" && !j.o.Cover {
-						// refuted; get a model
-						v.Backend = sp.name
-						status = "refuted"
-						mfile := file + ".model.smt2"
-						os.WriteFile(mfile, []byte(script+"(get-model)\n"), 0o644)
-						_, mout, _ := runSolver(sp, mfile, tmo)
-						v.Model = mout
-						break
-					}
-					if r == "unsat" && j.o.Cover {
-						v.Backend = sp.name
-						status = "cover-fail"
-						break
-					}
-					if r == "error" && si == 0 {
-						// a malformed script is an engine bug: stop early, keep output
-						status = "undecided"
-					}
-				}
-				if j.o.Cover && status == "undecided" {
+				switch {
+				case j.o.Cover && r == "sat":
+					status = "cover-ok"
+				case j.o.Cover && r == "unsat":
+					status = "cover-fail"
+				case j.o.Cover:
 					status = "cover-unknown"
+				case r == "unsat":
+					status = "discharged"
+				case r == "sat":
+					status = "refuted"
+					mfile := file + ".model.smt2"
+					os.WriteFile(mfile, []byte(script+"(get-model)\n"), 0o644)
+					ctx, cancel := context.WithTimeout(context.Background(), time.Duration(tmo+2000)*time.Millisecond)
+					for i := range variants {
+						if variants[i].name == backend {
+							_, mout, _ := runSolverCtx(ctx, variants[i].cmd(mfile, tmo))
+							v.Model = mout
+						}
+					}
+					cancel()
 				}
 				v.Status = status
 				v.Output = strings.Join(outs, "\n")
-				if status != "discharged" && status != "cover-ok" && status != "cover-unknown" && keepDir != "" {
+				if (dumpAll || status == "refuted" || status == "undecided" || status == "cover-fail") && keepDir != "" {
 					mu.Lock()
 					os.MkdirAll(keepDir, 0o755)
 					dst := filepath.Join(keepDir, sanitize(j.o.Name)+".smt2")
